@@ -2,6 +2,7 @@ import SasLexer.Spec.Basic
 import SasLexer.Properties.C03
 import SasLexer.Proofs.Pure.Lines
 import SasLexer.Proofs.Model.DiscTop
+import SasLexer.Proofs.Model.SortedFns
 /-!
 # C04 — lines and columns: theorems
 
@@ -178,6 +179,101 @@ theorem model_tokMono_debug (cfg : Cfg) (hd : cfg.debug = true) (s : List Char)
     rw [hf.src] at this; exact this
   exact sortedR_mono (s := s) (hsorted hd) hpp
 
+theorem new_SInv (cfg : Cfg) (s : List Char) : SInv ⟨false, .none, true⟩ (Lexer.new cfg s) := by
+  constructor
+  · simp [Lexer.new, Lexer.bufAddLine, SortedR]
+  · intro t ht; simp [Lexer.new, Lexer.bufAddLine] at ht
+  · simp [Lexer.new, Lexer.bufAddLine, Lexer.curByte]
+  · intro _ t ht; simp [Lexer.new, Lexer.bufAddLine] at ht
+  · intro _; simp [Lexer.new, Lexer.bufAddLine]
+  · intro h; cases h
+  · intro c hc; simp [Lexer.new, Lexer.bufAddLine] at hc
+
+/-- byte starts of the detached buffer are sorted when those of the work buffer are and lie within the source -/
+theorem intoDetached_sorted (cfg : Cfg) (L : Lexer) (hs : SortedR L.toksR) (hle : ∀ t ∈ L.toksR, t.byte ≤ L.srcLen) :
+    (L.intoDetached cfg).1.toks.Pairwise (fun a b => a.byte ≤ b.byte) := by
+  unfold Lexer.intoDetached
+  have e : (if L.linesR.isEmpty = true then (L.bufAddLine cfg 0 0).2 else L).toksR = L.toksR := by split <;> rfl
+  have e2 : (if L.linesR.isEmpty = true then (L.bufAddLine cfg 0 0).2 else L).srcLen = L.srcLen := by split <;> rfl
+  generalize (if L.linesR.isEmpty = true then (L.bufAddLine cfg 0 0).2 else L) = L1 at e e2
+  simp only
+  rw [List.pairwise_reverse]
+  cases hl : L1.toksR with
+  | nil => simp
+  | cons a b =>
+    simp only
+    split
+    · rw [e]; exact hs
+    · simp only
+      rw [List.pairwise_cons]
+      refine ⟨?_, by rw [← hl, e]; exact hs⟩
+      intro x hx
+      rw [e2]
+      exact hle x (by rw [← e, hl]; exact hx)
+
+/-- **token starts never decrease in the modelled lexer — both profiles, every input, every ending** -/
+theorem model_bytes_sorted (cfg : Cfg) (s : List Char) :
+    (lexProgram cfg s).buf.toks.Pairwise (fun a b => a.byte ≤ b.byte) := by
+  unfold lexProgram
+  simp only
+  have h0 := new_SInv cfg s
+  have hm := mainLoop_sany (cfg := cfg) (budgetMul * (Lexer.new cfg s).srcLen + 64) 0 ((Lexer.new cfg s).srcLen, [Mode.default])
+  unfold SAny at hm
+  have h1 := swp_sound cfg _ (fun _ _ => True) _ (Lexer.new cfg s) (hm _ _ (fun _ _ => trivial)) h0
+  generalize hR : Prog.run cfg (mainLoop cfg (budgetMul * (Lexer.new cfg s).srcLen + 64) 0 ((Lexer.new cfg s).srcLen, [Mode.default]))
+    (Lexer.new cfg s) = R at h1
+  obtain ⟨ra, L1⟩ := R
+  cases ra with
+  | none => simp
+  | some en =>
+    obtain ⟨e, n⟩ := en
+    simp only at h1 ⊢
+    obtain ⟨σ1, _, hi1⟩ := h1.2 (e, n) rfl
+    have hle : ∀ (L : Lexer) (σ : SS), SInv σ L → ∀ t ∈ L.toksR, t.byte ≤ L.srcLen := by
+      intro L σ hi t ht
+      exact Nat.le_trans (hi.le t ht) (by simp [Lexer.curByte])
+    by_cases hdet : e = .detected
+    · subst hdet
+      simp only [beq_self_eq_true, if_true]
+      cases L1.panicked with
+      | some m => simp
+      | none => exact intoDetached_sorted cfg L1 hi1.sorted (hle _ _ hi1)
+    · have hb : (e == LoopEnd.detected) = false := by simpa using hdet
+      simp only [hb, Bool.false_eq_true, if_false]
+      have hf := finalizeLexing_sany (cfg := cfg)
+      unfold SAny at hf
+      have h2 := swp_sound cfg _ (fun _ _ => True) σ1 L1 (hf _ _ (fun _ _ => trivial)) hi1
+      cases hp : (Prog.run cfg (finalizeLexing cfg) L1).2.panicked with
+      | some m => simp
+      | none =>
+        simp only
+        have hr : (Prog.run cfg (finalizeLexing cfg) L1).1 = some () := by
+          cases hr : (Prog.run cfg (finalizeLexing cfg) L1).1 with
+          | none => exact absurd hp (run_none_panicked cfg _ L1 hr)
+          | some a => rfl
+        obtain ⟨σ2, _, hi2⟩ := h2.2 () hr
+        exact intoDetached_sorted cfg _ hi2.sorted (hle _ _ hi2)
+
+
+/-- token starts (char offsets) never decrease — both profiles (from `model_bytes_sorted` and the position-pair theorem) -/
+theorem model_tokMono (cfg : Cfg) (s : List Char) (hend : (lexProgram cfg s).ending = some .eof) :
+    TokMono (lexProgram cfg s).buf := by
+  obtain ⟨_, htoks, _⟩ := model_lines_exact cfg s hend
+  have hb := model_bytes_sorted cfg s
+  intro i x y hx hy
+  have hxy : x.byte ≤ y.byte := by
+    rw [List.pairwise_iff_getElem] at hb
+    have hi : i < (lexProgram cfg s).buf.toks.length := (List.getElem?_eq_some_iff.1 hx).1
+    have hj : i + 1 < (lexProgram cfg s).buf.toks.length := (List.getElem?_eq_some_iff.1 hy).1
+    have := hb i (i + 1) hi hj (Nat.lt_succ_self i)
+    rw [(List.getElem?_eq_some_iff.1 hx).2, (List.getElem?_eq_some_iff.1 hy).2] at this
+    exact this
+  have px := (htoks x (List.mem_of_getElem? hx)).1
+  have py := (htoks y (List.mem_of_getElem? hy)).1
+  by_cases hlt : y.start < x.start
+  · have := (posPair_lt_iff py px).1.2 hlt; omega
+  · omega
+
 /-- the model's buffer satisfies the hypothesis of the pure theorem `C04_of_lineWF` (the line discipline is a
 theorem now; only start-offset monotonicity is a hypothesis, discharged for the debug profile below) -/
 theorem model_lineWF (cfg : Cfg) (s : List Char) (hend : (lexProgram cfg s).ending = some .eof)
@@ -186,8 +282,8 @@ theorem model_lineWF (cfg : Cfg) (s : List Char) (hend : (lexProgram cfg s).endi
   obtain ⟨h1, h2, _⟩ := model_lines_exact cfg s hend
   exact ⟨h1, hsmall, fun t ht => ⟨(h2 t ht).1, (h2 t ht).2.1, (h2 t ht).2.2⟩, hmono⟩
 
-/-- **C04 for the modelled lexer, every input** (debug profile; the release profile returns the same buffer
-whenever the debug run fires no assertion — `kernel_C19_debug_release`): when the model returns at end of
+/-- **C04 for the modelled lexer, every input, both profiles** (token-start monotonicity is a theorem of the control
+logic: `model_bytes_sorted`, discipline `swp` of `Proofs/Model/Sorted*.lean`): when the model returns at end of
 input, *every* clause of `Spec.C04` holds of its dump — line table, start line and column, end line and
 column of every token, line and column of every error. -/
 theorem C04_model_of_mono (cfg : Cfg) (s : List Char) (hlen : utf8Len s < two32)
@@ -231,10 +327,10 @@ theorem C04_model_of_mono (cfg : Cfg) (s : List Char) (hlen : utf8Len s < two32)
 
 
 /-- **C04 for the modelled lexer, debug profile, every input**: no hypothesis on the control logic is left -/
-theorem C04_model (cfg : Cfg) (hd : cfg.debug = true) (s : List Char) (hlen : utf8Len s < two32)
+theorem C04_model (cfg : Cfg) (s : List Char) (hlen : utf8Len s < two32)
     (hend : (lexProgram cfg s).ending = some .eof) (hsmall : (lineStarts s).length < two32) :
     Spec.C04 s (modelDump cfg s) = [] :=
-  C04_model_of_mono cfg s hlen hend (model_tokMono_debug cfg hd s hend) hsmall
+  C04_model_of_mono cfg s hlen hend (model_tokMono cfg s hend) hsmall
 
 /-- non-vacuity of `C04_model` / `model_lines_exact`: a program with a BOM, line feeds inside a string, a comment
 and a macro call argument, a rollback and a recovery token runs to end of input in the model -/
